@@ -2,3 +2,9 @@
 // Context/Result types run into the drop-glue explosion, DESIGN 1.1 rule 1b).
 #![allow(warnings)]
 use super::*;
+
+#[cfg(test)]
+mod playback {
+    use super::*;
+    include!("/verif/.cache/playback/query.rs");
+}
